@@ -1,22 +1,22 @@
-SPECIFICATION Spec
+SPECIFICATION SimSpec
 CONSTANTS Clients = {"c1","c2","c3"}
-  RawKeys = {}
-  CacheKeys = {}
-  Atoms = {}
-  SetLists <- NoLists
-  Indexes <- IdxFront
-  MaxLen = 0
-  Records = {}
-  CacheSizes = {}
+  RawKeys <- KeysEv
+  CacheKeys = {"k2"}
+  Atoms = {"x","y"}
+  SetLists <- ListsXY
+  Indexes <- IdxAll
+  MaxLen = 4
+  Records = {"r1","r2","r3"}
+  CacheSizes = {0,1,2}
   Paths = {"p1","p2"}
   Payloads = {"x","y"}
   MaxPush = 40
   Times <- Times3
   RedMax = 128
-  Ops = {"setDBPath","clearDBPath","getDBConnection","pushEvent","logAndFlush","reduction","flush"}
+  Ops = {"set","get","append","pop","flush","dump","xset","init","put","grab","setDBPath","clearDBPath","getDBConnection","pushEvent","logAndFlush","reduction"}
   Dev = "none"
   EmitEdges = FALSE
-INVARIANT SimEmit
+INVARIANT SimEmitBeh
 INVARIANT TypeOK
 INVARIANT ExclusiveSetAtMostOnce
 INVARIANT WrittenConsistent
